@@ -17,6 +17,7 @@ import (
 	"flag"
 	"fmt"
 	"go/ast"
+	"go/build"
 	"go/format"
 	"go/parser"
 	"go/printer"
@@ -341,6 +342,12 @@ func packageVars(files map[string]string) []string {
 	fset := token.NewFileSet()
 
 	for _, n := range sortedKeys(files) {
+		// a file excluded by its build constraints (GOOS/GOARCH, release tags, custom tags) is not compiled into
+		// the harness build: its variables do not exist there
+		if ok, err := build.Default.MatchFile(filepath.Dir(files[n]), filepath.Base(files[n])); err == nil && !ok {
+			continue
+		}
+
 		f, err := parser.ParseFile(fset, files[n], nil, parser.SkipObjectResolution)
 		if err != nil {
 			die("parse %s: %v", files[n], err)
@@ -374,6 +381,10 @@ func findMethod(files map[string]string, name string) bool {
 	fset := token.NewFileSet()
 
 	for _, n := range sortedKeys(files) {
+		if ok, err := build.Default.MatchFile(filepath.Dir(files[n]), filepath.Base(files[n])); err == nil && !ok {
+			continue
+		}
+
 		f, err := parser.ParseFile(fset, files[n], nil, parser.SkipObjectResolution)
 		if err != nil {
 			continue
